@@ -133,6 +133,10 @@ class Translator:
                             self.side += [e <= az, -e <= az]
                     if f == "exp":
                         self.side.append(e > 0)
+                    if f == "round_to_float32":
+                        # rounding to single precision: relative error at most 2^-24 (normal range); NOT the identity
+                        self.side.append(z3.If(a >= 0, z3.And(e >= a * (1 - z3.RealVal(2) ** -24), e <= a * (1 + z3.RealVal(2) ** -24)),
+                                               z3.And(e <= a * (1 - z3.RealVal(2) ** -24), e >= a * (1 + z3.RealVal(2) ** -24))))
                 self.apps.append((n, e))
             elif op == "lt":
                 e = memo[n.args[0].hid] < memo[n.args[1].hid]
